@@ -157,6 +157,16 @@ func NewLinearFeeFunction(maxFeeRate chainfee.SatPerKWeight,
 	// Calculate how much fee rate should be increased per block.
 	end := l.endingFeeRate
 
+	// The starting fee rate, whether specified by the caller or taken
+	// from the min relay fee, must never exceed the ending fee rate, which
+	// is the max fee rate allowed.
+	if start > end {
+		log.Warnf("Starting fee rate %v exceeds ending fee rate %v, "+
+			"using ending fee rate instead", start, end)
+
+		start = end
+	}
+
 	// The starting and ending fee rates are in sat/kw, so we need to
 	// convert them to msat/kw by multiplying by 1000.
 	delta := btcutil.Amount(end - start).MulF64(1000 / float64(l.width))
